@@ -8,3 +8,7 @@ open A2l.Srt
 #print axioms iterate_uids_partial
 #print axioms overflow_witness
 #print axioms overflow_general
+#print axioms placed_order_stable_partial
+#print axioms placed_keys_stable_partial
+#print axioms nothing_between_last_placed_and_new
+#print axioms new_directly_behind_last_placed_partial
